@@ -355,15 +355,46 @@ The model has no step that abandons a round trip or a response write: trace vali
 rejects any run of the real proxy in which the round trip of a started exchange ends without the
 origin's response (event `rtx`, e.g. because the request's context was cancelled at shutdown). -/
 
-/-- While an exchange is in the upstream round trip, the only move of its handler is the return of
-the round trip with the origin's response; the move and its result do not depend on `closing`, on
-`connsMu` or on whether `Close` has returned. -/
+/-- While an exchange is in the upstream round trip, the only moves of its handler are the return of the
+round trip — with the origin's response (`rtEnd rc`) or with an ERROR (`rtFail`: dial refused, reset,
+truncated head, timeout; `handle` then builds a 502). In BOTH outcomes the handler goes on to the response
+modifier with the exchange still in flight, and neither the move nor its result depends on `closing`, on
+`connsMu` or on whether `Close` has returned: shutdown does not turn a failed round trip into a dropped
+exchange. -/
 theorem round_trip_ends_only_with_origin_response {c m r : Bool} {h h' : Handler} {l : HL}
     (hp : h.pc = .inRoundTrip) (hs : hstep c m r h l = some h') :
-    ∃ rc, l = .rtEnd rc ∧ h' = { h with pc := .postRoundTrip, resClose := rc } ∧
+    ((∃ rc, l = .rtEnd rc ∧ h' = { h with pc := .postRoundTrip, resClose := rc }) ∨
+     (l = .rtFail ∧ h' = { h with pc := .postRoundTrip, resClose := false, rtFailed := h.rtFailed + 1 })) ∧
+    h'.pc = .postRoundTrip ∧ h'.started = h.started ∧ h'.completed = h.completed ∧ h'.pc.inExchange = true ∧
       ∀ c' m' r', hstep c' m' r' h l = some h' := by
   cases l <;> simp [hstep, hp, Pc.readable] at hs
-  case rtEnd rc => exact ⟨rc, rfl, hs.symm, fun _ _ _ => by simp [hstep, hp, hs]⟩
+  case rtEnd rc => subst hs; exact ⟨Or.inl ⟨rc, rfl, rfl⟩, rfl, rfl, rfl, rfl, fun _ _ _ => by simp [hstep, hp]⟩
+  case rtFail => subst hs; exact ⟨Or.inr ⟨rfl, rfl⟩, rfl, rfl, rfl, rfl, fun _ _ _ => by simp [hstep, hp]⟩
+
+/-- A failed round trip is answered: on EVERY schedule — with any number of `rtFail` labels, any placement
+of `Close` — without the two fault labels of the client side (`writeErr`, `hijack`), every exchange whose
+request modifier has started is still in flight or has had its response (the origin's, or the 502)
+completely written, and a handler that closes its connection has completed everything it started. In
+particular an exchange whose round trip failed after shutdown began is not dropped. -/
+theorem failed_round_trip_is_answered {sched : List Label} {s : Sys} (hr : run init sched = some s)
+    (hl : ∀ l ∈ sched, l.isFault = false) :
+    ∀ h ∈ s.hs, h.started = h.completed + (if h.pc.inExchange then 1 else 0) ∧
+      (h.pc.winding = true → h.completed = h.started) ∧ (Label.h 0 .rtFail).isFault = false :=
+  fun h hm => ⟨(started_exchange_completes_without_faults hr hl h hm).1,
+    (started_exchange_completes_without_faults hr hl h hm).2, rfl⟩
+
+/-- Test on a concrete schedule: shutdown while the exchange is parked in the round trip, the round trip
+then fails — the 502 is complete, marked `Connection: close`, the connection is closed, `Close` returns. -/
+theorem failed_round_trip_during_shutdown_witness :
+    ∃ s, run init
+      [.serveCheck, .accept, .h 0 .spawn, .h 0 .add, .h 0 .checkClosing, .h 0 (.gotReq false), .h 0 .reqmodStart,
+       .h 0 .reqmodEnd, .h 0 .rtStart, .closeCall, .closeChan, .lock,
+       .h 0 .rtFail, .h 0 .resmodStart, .h 0 .resmodEnd, .h 0 .decide, .h 0 .writeStart, .h 0 .writeEnd,
+       .h 0 .closeConn, .h 0 .finish, .waitZero, .ret] = some s ∧
+      Final s ∧ s.returnedEarly = false ∧
+      ∃ h, s.hs[0]? = some h ∧ h.marks = [(true, false, true)] ∧ h.started = 1 ∧ h.completed = 1 ∧ h.rtFailed = 1 := by
+  refine ⟨_, rfl, ⟨rfl, ?_⟩, rfl, _, rfl, rfl, rfl, rfl, rfl⟩
+  decide
 
 /-- While a response is being written, the only move of the PROXY is the completion of the write (the
 response is counted as completely written), whatever the shutdown state; the only other way out is the
